@@ -1,7 +1,7 @@
 (* PropC11.v — property theorems for C11 (sync-state index integrity) about StateModel.v.
    Only statements closed by [exact], each followed by Print Assumptions. *)
 From Coq Require Import NArith List Bool.
-From CS Require Import Sx Str PathModel StateModel StateProofs StatePathProofs.
+From CS Require Import Sx Str PathModel PathLaws StateModel StateProofs StatePathProofs StateGuardModel StateFolderProofs StateUpdateProofs.
 Import ListNotations.
 
 (* the empty state satisfies all four clauses *)
@@ -110,3 +110,142 @@ Example C11_partial_nonvacuous :
     run_ops E_id s [ (OSet 0 false (FOid (Some w_o2)), [TSwap false]); (OMark 0 true, []); (OFinished 0, []); (ODiscard 0, []) ] = Ok s' /\
     oids s' false = [(w_o2, 0)] /\ slot_get s' false w_pbx w_o2 = Some 0.
 Proof. eexists. eexists. split; [vm_compute; reflexivity|]. split; [vm_compute; reflexivity|]. split; vm_compute; reflexivity. Qed.
+
+(* ==== preservation for the operations the engine uses: every state satisfying the invariant, every
+   argument, every provider environment E with env_ok E (the code as it is: legacy = false; the case fold of
+   both path conventions satisfies PathLaws.fold_ok), every tape, every fuel.  Results other than [Ok] (the
+   assertion failures of the code, RecursionError = out of fuel, a tape that does not fit) are excluded by the
+   hypothesis "... = Ok s'".  The guards are boolean functions of the state BEFORE the operation. ==== *)
+
+(* the guard relation: b strictly below a, on case-folded path components (what is_subpath / join compare) *)
+Theorem C11_below_decidable : forall cv a b, belowb cv a b = true <-> below cv a b.
+Proof. exact belowb_spec. Qed.
+Print Assumptions C11_below_decidable.
+
+(* the executable model's environments (un_env) satisfy env_ok as soon as they describe the current code *)
+Theorem C11_env_ok_wire : forall oipf csf pf inf, env_ok (mkEnv oipf (fun sd => mk_conv (csf sd)) pf inf false).
+Proof. exact env_ok_wire. Qed.
+Print Assumptions C11_env_ok_wire.
+
+(* ent[side].path = v for EVERY entry, folders included (_change_path + _update_kids with the recursion through
+   the children's own setters, the provider lookups of an oid_is_path side, sync_path rewriting), under the
+   guard path_guardb: a folder is not placed strictly below its own previous path.  Without the guard the setters
+   need not even terminate: C11_update_kids_terminates_refuted (open finding C11-F4) stays as it is. *)
+Theorem C11_set_path_folder_preserves : forall E s e sd v s',
+  env_ok E -> IdxJ s -> path_guardb E s e sd v = true -> set_path E s e sd v = Ok s' -> IdxJ s'.
+Proof. exact set_path_pres. Qed.
+Print Assumptions C11_set_path_folder_preserves.
+
+(* SyncState.update_entry, all branches (replacement of a discarded entry by a fresh one on an oid_is_path side,
+   id, type, path, hash, exists with the TRASHED -> LIKELY_TRASHED rule, mark_changed) *)
+Theorem C11_update_entry_preserves : forall E s e sd oid path h ex changed ot s',
+  env_ok E -> IdxJ s -> ue_guardb E s e sd oid path ot = true ->
+  update_entry E s e sd oid path h ex changed ot = Ok s' -> IdxJ s'.
+Proof. exact update_entry_pres. Qed.
+Print Assumptions C11_update_entry_preserves.
+
+(* SyncState.update: one provider event, all branches (lookup by id; prior_oid: re-use of a discarded trashed
+   entry, rename detection, merge of two entries by moving the other side, stale path lookups with
+   un-discarding; new entry; clock tick; update_entry).  upd_guardb checks, for each entry the event can land on,
+   the guard of the path assignment, and the guard of the side move of the merge branch. *)
+Theorem C11_update_preserves : forall E s sd ot oid path h ex prior s',
+  env_ok E -> IdxJ s -> upd_guardb E s sd ot oid path prior = true ->
+  update E s sd ot oid path h ex prior = Ok s' -> IdxJ s'.
+Proof. exact update_pres. Qed.
+Print Assumptions C11_update_preserves.
+
+(* SyncState.split (fresh entry, side move, SideState.clear, the get_all / lookup_path assertions, mark_changed): no guard *)
+Theorem C11_split_preserves : forall E s e s', env_ok E -> IdxJ s -> split E s e = Ok s' -> IdxJ s'.
+Proof. exact split_pres. Qed.
+Print Assumptions C11_split_preserves.
+
+(* SyncEntry.__setitem__ (dst[side] = src[side]), both announcement orders (id then path / path then None).
+   mv_guardb: if dst is a folder that already has a path on that side, the incoming path is not strictly below
+   it and, when an id comes along, the side is not oid_is_path. *)
+Theorem C11_setitem_preserves : forall E s dst src sd s',
+  env_ok E -> IdxJ s -> mv_guardb E s dst src sd = true -> move_side E s dst src sd = Ok s' -> IdxJ s'.
+Proof. exact move_side_pres. Qed.
+Print Assumptions C11_setitem_preserves.
+
+(* ... and the second half of that guard is needed: on an oid_is_path side _update_kids can hand the incoming id
+   to a child of the destination folder, after which __setitem__ writes it back into the destination (finding
+   C11-F5, witness replayed on the real SyncState: corpus/C11/w5_setitem_rekeyed_child.json) *)
+Theorem C11_setitem_refuted : ~ setitem_preserves_full.
+Proof. exact setitem_refuted. Qed.
+Print Assumptions C11_setitem_refuted.
+
+(* SyncState.forget_oid (no caller in the engine) removes the slots of an entry that keeps its id *)
+Theorem C11_forget_refuted : ~ forget_preserves_full.
+Proof. exact forget_refuted. Qed.
+Print Assumptions C11_forget_refuted.
+
+(* one operation of the whole modelled alphabet (events, all field assignments incl. path, ignored, priority,
+   split, finished, mark_changed, move-a-side, update_entry, discard; forget_oid is the one exclusion) *)
+Theorem C11_apply_op_preserves : forall E s o s',
+  env_ok E -> IdxJ s -> op_guardb E s o = true -> apply_op E s o = Ok s' -> IdxJ s'.
+Proof. exact apply_op_guarded_pres. Qed.
+Print Assumptions C11_apply_op_preserves.
+
+(* HEADLINE: every state reached from the empty state satisfies clauses (i)-(iii), after EVERY operation of
+   EVERY sequence over that alphabet in which each operation satisfies its guard in the state it is applied to
+   (guardedb: fold over the list; the guard excludes the C11-F4 class, the C11-F5 class and forget_oid). *)
+Theorem C11_idx_reachable : forall E ops s',
+  env_ok E -> guardedb E init_state ops = true -> In (Ok s') (trace_ops E init_state ops) ->
+  idx_found s' /\ idx_slots s' /\ idx_unique s'.
+Proof. exact idx_reachable. Qed.
+Print Assumptions C11_idx_reachable.
+
+(* the bits printed by the extracted guard model (coq/bin/stateguard, StateGuardModel.run) decide that hypothesis *)
+Theorem C11_guard_trace_decides : forall E l s, guardedb E s l = forallb (N.eqb 1) (guard_trace E s l).
+Proof. exact guard_trace_all. Qed.
+Print Assumptions C11_guard_trace_decides.
+
+(* the same from any state satisfying the invariant, for the final state of a run *)
+Theorem C11_idx_run : forall E ops s s',
+  env_ok E -> IdxJ s -> guardedb E s ops = true -> run_ops E s ops = Ok s' -> IdxJ s'.
+Proof. exact idx_run. Qed.
+Print Assumptions C11_idx_run.
+
+(* ---- non-vacuity ---- *)
+Definition nv_o3 : str := [111;51]%N.
+Definition nv_o4 : str := [111;52]%N.
+Definition nv_r3 : str := [114;51]%N.
+Definition nv_abf : str := [47;97;47;98;47;102]%N.
+Definition nv_z : str := [47;122]%N.
+Definition nv_zg : str := [47;122;47;103]%N.
+Definition nv_zbf : str := [47;122;47;98;47;102]%N.
+Definition nv_zbf2 : str := [47;122;47;98;47;102;50]%N.
+(* three nested objects; the top folder is renamed (children and grandchild re-filed); an event with prior_oid
+   merges two entries (the remote side moves); split; finished; move-a-side; discard.  Ops and tapes as recorded
+   on the real SyncState (model and implementation agree on every step). *)
+Definition nv_run : list (op * list titem) :=
+  [ (OUpdate false (Some Dir) (Some w_o1) (Some w_pa) None (Some true) None, [TSwap false]);
+    (OUpdate false (Some Dir) (Some w_o2) (Some w_pab) None (Some true) None, [TSwap false]);
+    (OUpdate false (Some File) (Some nv_o3) (Some nv_abf) (Some 1%N) (Some true) None, [TSwap false]);
+    (OUpdate false (Some Dir) (Some w_o1) (Some nv_z) None (Some true) None, [TOrder [0;1;2]; TOrder [0;1;2]]);
+    (OSet 2 true (FOid (Some nv_r3)), [TSwap false]);
+    (OUpdate false (Some File) (Some nv_o4) (Some nv_zg) (Some 2%N) (Some true) None, [TSwap false]);
+    (OUpdate false (Some File) (Some nv_o3) (Some nv_zbf2) (Some 1%N) (Some true) (Some nv_o4),
+       [TSwap true; TSwap false; TSwap false; TSwap true]);
+    (OSplit 3, [TSwap true; TSwap false; TOrder [0;1;3;4]]);
+    (OFinished 0, []);
+    (OMove 1 0 false, [TSwap true; TSwap false; TOrder [1;3;4]]);
+    (ODiscard 2, []) ].
+Example C11_reachable_nonvacuous :
+  guardedb E_id init_state nv_run = true /\
+  exists s, run_ops E_id init_state nv_run = Ok s /\ length (ents s) = 5 /\
+    oids s false = [(nv_o3, 4); (w_o1, 1)] /\ oids s true = [(nv_r3, 3)] /\ slot_get s false nv_z w_o1 = Some 1.
+Proof. split; [vm_compute; reflexivity|]. eexists. split; [vm_compute; reflexivity|]. repeat split; vm_compute; reflexivity. Qed.
+
+(* the folder rename on its own: after the first three events the guard holds for entry 0 going to /z, the call
+   runs to completion, and child and grandchild are filed under the new paths *)
+Example C11_set_path_folder_nonvacuous :
+  exists s s', run_ops E_id init_state (firstn 3 nv_run) = Ok s /\
+    path_guardb E_id s 0 false (Some nv_z) = true /\
+    set_path E_id (st_tape s [TOrder [0;1;2]; TOrder [0;1;2]]) 0 false (Some nv_z) = Ok s' /\
+    slot_get s' false nv_zbf nv_o3 = Some 2.
+Proof. eexists. eexists. split; [vm_compute; reflexivity|]. split; [vm_compute; reflexivity|]. split; vm_compute; reflexivity. Qed.
+
+(* the guard rejects exactly the step of the C11-F4 witness that places the folder below its own child *)
+Example C11_guard_rejects_F4 : guardedb E_id init_state (w_kids2 1) = false /\ guardedb E_id init_state (firstn 2 (w_kids2 1)) = true.
+Proof. split; vm_compute; reflexivity. Qed.
